@@ -47,7 +47,9 @@ class World:
         # kinds vary between worlds (elements with only disturbances / only states / no variables)
         self.D1 = (M.CongestedDestination if rng.random() < 0.6 else M.Destination)(name="D1")
         self.D1b = (M.CongestedDestination if rng.random() < 0.7 else M.Destination)(name="D1b")
-        self.D2 = M.Destination(name="D2")
+        # an off-ramp link named after the place it leads to: the (variable-less, hence always ready)
+        # destination of the branch may carry the name of the branch link
+        self.D2 = M.Destination(name=("L3" if rng.random() < 0.4 else "D2"))
         self.D2b = M.CongestedDestination(name=("O1" if rng.random() < 0.3 else "D2b"))
         # a user-defined destination kind that owns a state (README "Extensions"); only the public
         # element-level step advances it
